@@ -16,7 +16,7 @@ RULE = ("netspace skeletons x every single deviation (quick) / every compatible 
         "EPANET through ctypes vs the same text read by read_inpfile and simulated by both WNTR simulators.  tolerances: heads, "
         "pressures, levels 0.01 m + 1e-3 rel; demands, flows 2e-5 m3/s + 1e-3 rel; closed/not-closed status equal.  non-trivial: "
         "the case has >= 1 deviation and >= 2 compared report steps")
-ASSUMPTIONS = ["comparison of a case stops at the first report step at which EPANET itself issues a warning (unbalanced, negative pressures, pump cannot deliver, ...): from there on the model is outside the common feature set",
+ASSUMPTIONS = ["tank-to-tank links made shorter (L50) or wider (D600) than the skeleton's are left out: the two tanks then equalise faster than the hydraulic step and the explicit level integration amplifies file-precision differences (EPANET against itself in two unit systems differs)", "comparison of a case stops at the first report step at which EPANET itself issues a warning (unbalanced, negative pressures, pump cannot deliver, ...): from there on the model is outside the common feature set",
                "near-ties: a mismatch is not judged when, at that or the previous step, a state-dependent trigger (tank level vs limit or control threshold, junction pressure vs control threshold, valve/pump/check-valve switching quantity) is within the tolerance of its threshold in either engine; such truncations are counted",
                "PDD cases are compared only at steps where every junction pressure is outside (Pmin, Preq) by more than the tolerance in both engines or the results agree; EPANET's treatment inside the band is judged by C07, not here",
                "both engines are run with ACCURACY 1e-6 and 200 trials; EPANET results are float32",
@@ -71,6 +71,12 @@ def cases(tier):
         # the [PIPES] status field holds ONE of OPEN / CLOSED / CV: an initially closed check-valve pipe is not expressible
         # in the file EPANET gets (it is written as CV, i.e. open) - outside the common feature set
         if any(l["t"] == "pipe" and l.get("cv") and l["status"] == "CLOSED" for l in s["links"]):
+            continue
+        # two tanks joined by a short or wide pipe equalise within a fraction of the hydraulic step: the explicit level
+        # integration both engines use then overshoots back and forth and amplifies file-precision differences (EPANET run on
+        # the same model in two unit systems differs by 0.5 %) - an ill-conditioned comparison, kept out of the space
+        tanks_ = set(n["n"] for n in s["nodes"] if n["t"] == "tank")
+        if any(d.get("k") in ("L50", "D600") and link(s, d["l"])["a"] in tanks_ and link(s, d["l"])["b"] in tanks_ for d in s["id"]["devs"] if "l" in d):
             continue
         out.append(s)
     # control deviations (alone, and with clock3h / pdd / hyd30)
